@@ -23,7 +23,11 @@ M4(k) == [a \in 1..4 |-> [b \in 1..4 |->
                      idx == IF k % 2 = 1 /\ a > b THEN (a * 5 + b * 3 + k) ELSE (lo * 7 + hi * 3 + k \div lo)
                  IN V4[(idx % 7) + 1]]]
 \* (k and k+1: an even = symmetric and an odd = asymmetric matrix per stride)
+\* asymmetric 4-node matrices with (mostly) distinct entries -8..8 quarter units: few ties, so that the
+\* density clause is sharp for directed networks
+M4a(k) == [a \in 1..4 |-> [b \in 1..4 |-> IF a = b THEN 4 ELSE ((a * 5 + b * 3 + a * b * k + (k \div 17) * (a + 2 * b) + k * 7) % 17) - 8]]
 Mats4 == {M4(k) : k \in {kk \in 1..2000 : kk % Stride4 \in {0, 1}}}
+         \cup {M4a(k) : k \in {kk \in 1..2000 : kk % Stride4 = 2}}
 IsSymM(S) == \A a \in 1..Len(S) : \A b \in 1..Len(S) : S[a][b] = S[b][a]
 
 ThrA == << <<-1, 8>>, <<0, 1>>, <<1, 8>>, <<1, 4>>, <<3, 8>>, <<1, 2>>, <<5, 8>>, <<3, 4>>, <<7, 8>>, <<1, 1>> >>
